@@ -3,6 +3,7 @@ package main
 import (
 	"go/token"
 	"go/types"
+	"strconv"
 	"strings"
 
 	"golang.org/x/tools/go/ssa"
@@ -27,6 +28,12 @@ func ruleClone(c *Ctx) []Obligation {
 		res := r.Results[0]
 		al, ok := res.(*ssa.Alloc)
 		if !ok || !al.Heap {
+			// built through helpers (newStatement().Add(s)): judged on the paths with those inlined
+			if ok2, why := c.cloneOnPaths(f); ok2 {
+				o.add(Discharged, fn, "returns a freshly allocated statement", r.Pos(), true, "%s", why)
+				o.add(Discharged, fn, "the clone's slice has a fresh backing array", r.Pos(), true, "%s", why)
+				continue
+			}
 			o.add(Violated, fn, "returns a freshly allocated statement", r.Pos(), true, "returns %s — the clone must not be the original", a.Desc(res))
 			continue
 		}
@@ -329,4 +336,35 @@ func litOf(v ssa.Value) (ssa.Value, bool) {
 		return nil, false
 	}
 	return stripConv(call.Call.Args[0]), true
+}
+
+// cloneOnPaths: on every path of Clone (helpers inlined) the result is an object allocated on that
+// path whose slice value is built there — a list of elements, or an append onto nil / a new slice —
+// and is never the receiver's own slice, a re-slice of it, or an append onto it.
+func (c *Ctx) cloneOnPaths(f *ssa.Function) (bool, string) {
+	paths, trunc := c.Paths(f, PXConfig{MaxDepth: 4, MaxVisits: 3})
+	if trunc || len(paths) == 0 {
+		return false, "path enumeration failed"
+	}
+	for _, p := range paths {
+		if p.End != "return" || len(p.Ret) != 1 || p.Ret[0].Op != "alloc" {
+			return false, "a path does not return a fresh object"
+		}
+		v, ok := p.Mem["o"+strconv.Itoa(p.Ret[0].Obj)]
+		if !ok || v == nil {
+			return false, "nothing is stored into the clone"
+		}
+		fresh := false
+		switch v.Op {
+		case "elems":
+			fresh = len(v.Elems) > 0
+		case "append":
+			base := v.A[0]
+			fresh = base.Nil || (base.Op == "elems") || (base.Op == "make")
+		}
+		if !fresh {
+			return false, "the clone's slice is " + v.String()
+		}
+	}
+	return true, "on every path (helpers inlined) the result is a new statement whose slice is built on that path"
 }
